@@ -107,11 +107,34 @@ func oneCase(o *out.W, r *rng.R, i int) {
 		for ext*k > math.Min(W, H) {
 			k /= 2
 		}
+		// one layer in four is a small shape in one quadrant of the canvas instead of a large one around the centre
+		qx, qy := 0.5, 0.5
+		if r.P(1, 4) {
+			if !stroke { // strokes wider than their segments are C04's known finding (wide-stroke-short-segments)
+				k /= 4
+			} else {
+				k /= 2
+			}
+			qx, qy = rng.Pick(r, []float64{0.25, 0.75, 0.75}), rng.Pick(r, []float64{0.25, 0.75, 0.75})
+		}
+		// strokes wider than twice their shortest segment are C04's known finding (wide-stroke-short-segments): such layers are filled
+		minseg := math.Inf(1)
+		if c0 := ip.Contours[0]; stroke {
+			for vi := range c0 {
+				v, w := c0[vi], c0[(vi+1)%len(c0)]
+				if d := math.Hypot(float64(w.X-v.X), float64(w.Y-v.Y)) * ip.Scale * k; d > 0 {
+					minseg = math.Min(minseg, d)
+				}
+			}
+			if minseg < 0.5 {
+				stroke = false
+			}
+		}
 		cx, cy := float64(x0+x1)/2*ip.Scale*k, float64(y0+y1)/2*ip.Scale*k
 		m := canvas.Matrix{{a[0], a[1], 0}, {a[2], a[3], 0}}
 		ctr := m.Dot(canvas.Point{X: cx, Y: cy})
-		m[0][2] = W/2 - ctr.X + float64(r.Range(-8, 8))/4
-		m[1][2] = H/2 - ctr.Y + float64(r.Range(-8, 8))/4
+		m[0][2] = W*qx - ctr.X + float64(r.Range(-8, 8))/4
+		m[1][2] = H*qy - ctr.Y + float64(r.Range(-8, 8))/4
 		p := &canvas.Path{}
 		var polys [][]ipt
 		for _, cont := range ip.Contours {
@@ -151,8 +174,30 @@ func oneCase(o *out.W, r *rng.R, i int) {
 			if closed {
 				q.Close()
 			}
+			// half of the stroke layers have a second subpath: the same line shifted, so that the two strokes cross and overlap; the
+			// style's fill rule is arbitrary (it must not matter for a stroke)
+			var line2 []ipt
+			if r.Bool() {
+				sx, sy := float64(r.Range(-4, 4))/2, float64(r.Range(1, 4))/2
+				for vi, v := range cont {
+					x, y := float64(v.X)*ip.Scale*k+sx, float64(v.Y)*ip.Scale*k+sy
+					if vi == 0 {
+						q.MoveTo(x, y)
+					} else {
+						q.LineTo(x, y)
+					}
+					line2 = append(line2, toPx(m, x, y))
+				}
+				if closed {
+					q.Close()
+				}
+			}
+			style.FillRule = canvas.FillRule(r.Intn(4))
 			p = q
 			w := rng.Pick(r, []float64{1, 2, 3, 4})
+			for w/2 > minseg {
+				w--
+			}
 			style.Fill = canvas.Paint{}
 			style.Stroke = canvas.Paint{Color: col}
 			style.StrokeWidth = w
@@ -161,6 +206,9 @@ func oneCase(o *out.W, r *rng.R, i int) {
 			scale := math.Sqrt(math.Abs(a[0]*a[3] - a[1]*a[2]))
 			hwpx := w / 2 * scale * dpmm
 			layers = append(layers, fmt.Sprintf("(LStroke %s %s %s %s %s)", cq.Bool(closed), term(line), sqz(hwpx-1.25), sqz(hwpx+1.25), cq.Z(id)))
+			if line2 != nil {
+				layers = append(layers, fmt.Sprintf("(LStroke %s %s %s %s %s)", cq.Bool(closed), term(line2), sqz(hwpx-1.25), sqz(hwpx+1.25), cq.Z(id)))
+			}
 			descs = append(descs, layerDesc{"stroke-round", p.String(), 0, w, m, col})
 		} else {
 			rule := r.Intn(4)
